@@ -13,7 +13,7 @@ import ZanVerif.Data.ZSetCmd
 import ZanVerif.Data.HashExec
 import ZanVerif.Data.HashTTLIncrErr
 import ZanVerif.Gen.HIncrShape
-import ZanVerif.Data.BitExec
+import ZanVerif.Data.BitInv
 
 namespace Z.Props.C11
 
@@ -208,8 +208,11 @@ example :
 /-! ### bitmap (both layouts): an error answer (value not 0 / 1, offset outside `[0, MaxBitOffsetV2]`, undecodable meta,
     overflowing expiry, PERSIST under local_deletion) leaves the store as it was. Model domain: table name and key part
     non-empty (with an EMPTY key part the real `BitSetV2` converts and deletes a string of that name and THEN answers
-    `invalid key size`: known finding C11-setbit-empty-keypart, outside the model). A Go panic is not an error answer:
-    `C11_setbit_panic_witness`. -/
+    `invalid key size`: finding C11-setbit-empty-keypart, outside the model, still open).
+    The model of the bitmap commands has NO panic outcome (`BOut` = value | error class): the apply-path panic
+    `bitmap size mismatch` of SETBIT over an expired bitmap + a string of the same name was repaired (fix 0ad0963, `bmSize = 0`
+    for an absent / expired bitmap); the size check is still in the code and dead — `C11_setbit_conversion_size_check_dead` —,
+    the former witness is the regression example `C11_setbit_expired_over_string`. -/
 
 open Z.BitExec in
 theorem C11_setbit_error_no_effect (pol : Pol) (m : List KV) (ts : Int) (table rk : Bytes) (offset on : Int) (e : String)
@@ -223,12 +226,13 @@ theorem C11_setbit_error_no_effect (pol : Pol) (m : List KV) (ts : Int) (table r
       rw [if_neg h1, if_neg h2] at h
       cases hb : bmeta pol m ts table rk with
       | err c => rfl
-      | mk hd ex size0 ok =>
-        rw [hb] at h
-        simp only at h ⊢
-        cases hc : (if ok = true then Conv.done m size0 else convert m table rk size0) with
-        | panic q => rfl
-        | done m1 size1 => rw [hc] at h; simp only at h; cases h
+      | mk hd ex size0 ok => rw [hb] at h; simp only at h; cases h
+
+/-- the legacy conversion of `BitSetV2` cannot hit its own `panic("bitmap size mismatch")`: `bmSize` starts from 0 (regenerated
+    pin `Gen.bitDeadSizeZero`) and the lengths of the segments the loop writes add up to the length of the string's body -/
+theorem C11_setbit_conversion_size_check_dead (body : Z.BitExec.Bytes) :
+    (0 : Int) + (((Z.BitExec.chunks (body.length + 1) body 0).map (fun c => c.2.length)).sum : Nat) = (body.length : Int) := by
+  rw [Z.BitExec.chunks_total (body.length + 1) body 0 (by omega)]; omega
 
 open Z.BitExec in
 theorem C11_bitclear_error_no_effect (pol : Pol) (m : List KV) (ts : Int) (table rk : Bytes) (e : String)
@@ -296,16 +300,24 @@ example : (bexpire (setbit .compact [] bTs bT bK 5 1).1 (bTs + 1) bT bK 42949672
     (bpersist .local (setbit .local [] bTs bT bK 5 1).1 (bTs + 1) bT bK).2 = .err "ttlunsupported" := by decide
 
 set_option maxRecDepth 100000 in
-/-- **witness (Go panic in the APPLY path, on every replica)**: `SETBIT b 5 1 @t; BEXPIRE b 1 @t; SET b "a" @t+2s; SETBIT b 6 1 @t+3s`
-    — the bitmap meta is expired with size 1, a string of the same name exists: the legacy conversion inside `BitSetV2`
-    adds the string's length to the size the EXPIRED meta still carries and hits its own `panic("bitmap size mismatch")`.
-    Not an error answer: the apply loop of the node dies. -/
-theorem C11_setbit_panic_witness :
+/-- **regression (defect repaired by 0ad0963)**: `SETBIT b 5 1 @t; BEXPIRE b 1 @t; SET b "a" @t+2s; SETBIT b 6 1 @t+3s` — the bitmap
+    meta is expired with size 1 and a string of the same name exists. Before the fix the legacy conversion added the string's
+    length to the expired size and hit `panic("bitmap size mismatch")` in the apply path of every replica; now the command
+    answers 0, the string is converted (deleted), and the new generation has the size of the converted body (14 raw bytes: 13
+    header + 1) — the store a reader decodes -/
+theorem C11_setbit_expired_over_string :
     let s1 := (setbit .compact [] bTs bT bK 5 1).1
     let s2 := (bexpire s1 bTs bT bK 1).1
     let s3 := Z.Ref.put s2 (strK bT bK) (encode ⟨0, 0, some [97]⟩ ++ Z.Codec.be64 (Z.Codec.toU64 (bTs + 2000000000)))
     (bexpire s1 bTs bT bK 1).2 = .ok 1 ∧
-    setbit .compact s3 (bTs + 3000000000) bT bK 6 1 = (s3, .panic .sizeMismatch) := by decide
+    (setbit .compact s3 (bTs + 3000000000) bT bK 6 1).2 = .ok 0 ∧
+    Z.Ref.get (setbit .compact s3 (bTs + 3000000000) bT bK 6 1).1 (strK bT bK) = none ∧
+    bmeta .compact (setbit .compact s3 (bTs + 3000000000) bT bK 6 1).1 (bTs + 4000000000) bT bK =
+      .mk ⟨0, bTs + 3000000000, some (metaUser 14 (bTs + 3000000000))⟩ false 14 true ∧
+    getbit .compact (setbit .compact s3 (bTs + 3000000000) bT bK 6 1).1 (bTs + 4000000000) bT bK 6 = .ok 1 := by decide
+
+example : (0 : Int) + (((chunks (([1, 2, 3] : Z.BitExec.Bytes).length + 1) [1, 2, 3] 0).map (fun c => c.2.length)).sum : Nat) =
+    (([1, 2, 3] : Z.BitExec.Bytes).length : Int) := C11_setbit_conversion_size_check_dead [1, 2, 3]
 end BitExample
 
 
